@@ -13,6 +13,9 @@ if REPO not in sys.path[:1]:
     sys.path.insert(0, REPO)
 
 
+LAST_VIOLATION = [None]
+
+
 class PropertyViolation(AssertionError):
     """The code under test broke the property.  `bucket` names the clause and the
     discriminating part of the input (root-cause class); `case` is a JSON-serialisable,
@@ -23,6 +26,7 @@ class PropertyViolation(AssertionError):
         self.bucket = bucket
         self.message = message
         self.case = case
+        LAST_VIOLATION[0] = self
 
 
 class HarnessError(Exception):
